@@ -640,13 +640,16 @@ class Interp:
       if d.oid in mutated:
         d.havoc()
     key_sym = head.env.get(s.target.id) if isinstance(s.target, ast.Name) else None
+    if key_sym is None and isinstance(it, _View) and it.kind == 'items' and isinstance(s.target, (ast.Tuple, ast.List)) and \
+        isinstance(s.target.elts[0], ast.Name):
+      key_sym = head.env.get(s.target.elts[0].id)
     body_paths = self.block(s.body, head.clone())
     for p, rv in body_paths:
       if rv is not NotImplemented:
         raise AnalysisError('return inside a loop is not modelled')
     st.events.append(('loop', s, head, body_paths, it, n0, pre))
     # universal facts: a loop over a dict's keys whose body only asserts facts about that key's cell
-    itd = it.d if isinstance(it, _View) and it.kind == 'keys' else it
+    itd = it.d if isinstance(it, _View) and it.kind in ('keys', 'items') else it
     if isinstance(itd, DictObj) and key_sym is not None and len(body_paths) == 1 and not body_paths[0][0].broke and itd.oid not in mutated:
       endp = body_paths[0][0]
       for kind, e in endp.facts.items:
@@ -685,6 +688,11 @@ class Interp:
     if isinstance(target, ast.Name):
       nm = f'{target.id}{tag}'
       st.env[target.id] = sp.Symbol(nm, **self.typed.get(nm, dict(real=True)))
+    elif isinstance(target, (ast.Tuple, ast.List)) and isinstance(it, _View) and it.kind == 'items' and len(target.elts) == 2 and \
+        all(isinstance(t, ast.Name) for t in target.elts):
+      k = sp.Symbol(f'{target.elts[0].id}{tag}', real=True)
+      st.env[target.elts[0].id] = k
+      st.env[target.elts[1].id] = self.dict_load(it.d, k, st)
     elif isinstance(target, (ast.Tuple, ast.List)):
       base = sp.Symbol(f'item{tag}', real=True)
       vals = []
@@ -933,7 +941,10 @@ class Interp:
           return _View(meth, recv)
         if meth == 'get' and args:
           return self.dict_load(recv, args[0], st)
-        if meth in ('setdefault', 'pop', 'clear', 'popitem'):
+        if meth == 'setdefault' and args:
+          # d.setdefault(k, default): the entry under k afterwards (existing or the default just stored)
+          return self.dict_load(recv, args[0], st)
+        if meth in ('pop', 'clear', 'popitem'):
           recv.havoc()
           st.events.append(('dict-store', recv.oid, sp.Symbol('*'), None, n, st.facts.copy(), recv.version))
           return Obj(f'dictop@{n.lineno}')
